@@ -1,0 +1,28 @@
+//go:build verif
+// +build verif
+
+package route
+
+import (
+	dest "github.com/grafana/carbon-relay-ng/destination"
+)
+
+// VerifRawDests returns the destination slice of the currently published
+// route configuration itself (not a copy), exactly as a concurrent Dispatch
+// that has just loaded the configuration holds it.  Verification builds only
+// (C18: a loaded snapshot must never change).  nil for route types without
+// a destination list.
+func VerifRawDests(r Route) []*dest.Destination {
+	var b *baseRoute
+	switch x := r.(type) {
+	case *SendAllMatch:
+		b = &x.baseRoute
+	case *SendFirstMatch:
+		b = &x.baseRoute
+	case *ConsistentHashing:
+		b = &x.baseRoute
+	default:
+		return nil
+	}
+	return b.config.Load().(Config).Dests()
+}
